@@ -1,7 +1,7 @@
 //! Run executor, parallel search driver, shrinker, replay files, evidence.
 
 use crate::hashseed;
-use crate::tape::{hash_bytes, hash_str, mix, Tape};
+use crate::tape::{count_groups, count_values, from_json, hash_bytes, hash_str, mix, to_json, TNode, Tape};
 use serde_json::{json, Value};
 use std::any::Any;
 use std::cell::RefCell;
@@ -209,7 +209,7 @@ fn panic_violation(cx: &Cx, oracle: &str, what: &str, payload: Box<dyn Any + Sen
 
 pub struct RunResult {
     pub violation: Option<Violation>,
-    pub tape: Vec<u64>,
+    pub tape: Vec<TNode>,
     pub log: Vec<String>,
     pub digest: u64,
     pub evals: u64,
@@ -261,7 +261,7 @@ fn exec_run_here(scn: &dyn Scenario, tape: Tape, tier: Tier, render: bool, set_k
     }
     RunResult {
         violation,
-        tape: std::mem::take(&mut cx.tape.rec),
+        tape: cx.tape.take_record(),
         log: std::mem::take(&mut cx.log),
         digest: cx.digest,
         evals: cx.evals,
@@ -299,7 +299,7 @@ pub struct ShrinkStats {
     pub to_len: usize,
 }
 
-fn still_fails(scn: &dyn Scenario, tier: Tier, key: &str, cand: &[u64]) -> Option<(Vec<u64>, Violation)> {
+fn still_fails(scn: &dyn Scenario, tier: Tier, key: &str, cand: &[TNode]) -> Option<(Vec<TNode>, Violation)> {
     let r = exec_run(scn, Tape::from_replay(cand.to_vec()), tier, false);
     match r.violation {
         Some(v) if v.key() == key => Some((r.tape, v)),
@@ -307,104 +307,180 @@ fn still_fails(scn: &dyn Scenario, tier: Tier, key: &str, cand: &[u64]) -> Optio
     }
 }
 
-/// generic tape reduction: delete spans, zero spans, lower single values; keep the same violation class
-pub fn shrink(scn: &dyn Scenario, tier: Tier, tape: Vec<u64>, v: Violation, max_exec: u32, max_secs: f64) -> (Vec<u64>, Violation, ShrinkStats) {
+/// paths (child indices from the root) of all group nodes with their number of values, largest first
+fn group_paths(nodes: &[TNode]) -> Vec<(Vec<usize>, usize)> {
+    fn walk(nodes: &[TNode], prefix: &mut Vec<usize>, out: &mut Vec<(Vec<usize>, usize)>) {
+        for (i, n) in nodes.iter().enumerate() {
+            if let TNode::G(c) = n {
+                prefix.push(i);
+                out.push((prefix.clone(), count_values(c) + count_groups(c)));
+                walk(c, prefix, out);
+                prefix.pop();
+            }
+        }
+    }
+    let mut out = Vec::new();
+    walk(nodes, &mut Vec::new(), &mut out);
+    out.sort_by(|a, b| b.1.cmp(&a.1).then(a.0.cmp(&b.0)));
+    out
+}
+
+fn value_paths(nodes: &[TNode]) -> Vec<Vec<usize>> {
+    fn walk(nodes: &[TNode], prefix: &mut Vec<usize>, out: &mut Vec<Vec<usize>>) {
+        for (i, n) in nodes.iter().enumerate() {
+            prefix.push(i);
+            match n {
+                TNode::V(v) => {
+                    if *v != 0 {
+                        out.push(prefix.clone());
+                    }
+                }
+                TNode::G(c) => walk(c, prefix, out),
+            }
+            prefix.pop();
+        }
+    }
+    let mut out = Vec::new();
+    walk(nodes, &mut Vec::new(), &mut out);
+    out
+}
+
+/// apply `f` to the node list that contains the node at `path` and the node's index in it
+fn with_parent<F: FnOnce(&mut Vec<TNode>, usize)>(nodes: &mut Vec<TNode>, path: &[usize], f: F) {
+    if path.len() == 1 {
+        if path[0] < nodes.len() {
+            f(nodes, path[0]);
+        }
+    } else if let Some(TNode::G(c)) = nodes.get_mut(path[0]) {
+        with_parent(c, &path[1..], f);
+    }
+}
+
+fn size(nodes: &[TNode]) -> (usize, usize) {
+    (count_values(nodes), count_groups(nodes))
+}
+
+/// hierarchical tape reduction: delete groups, empty groups, lower values; always keep the same violation class
+pub fn shrink(scn: &dyn Scenario, tier: Tier, tape: Vec<TNode>, v: Violation, max_exec: u32, max_secs: f64) -> (Vec<TNode>, Violation, ShrinkStats) {
     let key = v.key();
     let start = Instant::now();
     let mut best = tape;
     let mut bestv = v;
     let mut execs = 0u32;
-    let from_len = best.len();
+    let from_len = count_values(&best);
     let over = |execs: u32| execs >= max_exec || start.elapsed().as_secs_f64() > max_secs;
 
     let mut improved = true;
+    let mut round = 0;
     while improved && !over(execs) {
         improved = false;
-        // pass 1: delete spans (large to small); the first two values are the hash key and stay
-        let mut span = (best.len() / 2).max(1);
-        while span >= 1 && !over(execs) {
-            let mut i = 2usize;
-            while i + span <= best.len() && !over(execs) {
+        round += 1;
+        // pass 1: delete whole groups / empty them, largest first. After a success the tree is re-enumerated.
+        let mut skip = 0usize;
+        'groups: loop {
+            if over(execs) {
+                break;
+            }
+            let paths = group_paths(&best);
+            let mut progressed = false;
+            for (path, sz) in paths.iter().skip(skip) {
+                if over(execs) {
+                    break 'groups;
+                }
+                skip += 1;
+                if *sz == 0 {
+                    continue;
+                }
+                // (a) delete the group
                 let mut cand = best.clone();
-                cand.drain(i..i + span);
+                with_parent(&mut cand, path, |p, i| {
+                    p.remove(i);
+                });
                 execs += 1;
                 if let Some((t, nv)) = still_fails(scn, tier, &key, &cand) {
-                    if t.len() < best.len() || (t.len() == best.len() && t < best) {
+                    if size(&t) < size(&best) {
                         best = t;
                         bestv = nv;
                         improved = true;
-                        continue;
+                        progressed = true;
+                        skip = skip.saturating_sub(1);
+                        break;
                     }
                 }
-                i += span;
+                // (b) keep the group but make everything in it minimal
+                let mut cand = best.clone();
+                with_parent(&mut cand, path, |p, i| {
+                    p[i] = TNode::G(Vec::new());
+                });
+                execs += 1;
+                if let Some((t, nv)) = still_fails(scn, tier, &key, &cand) {
+                    if size(&t) < size(&best) {
+                        best = t;
+                        bestv = nv;
+                        improved = true;
+                        progressed = true;
+                        skip = skip.saturating_sub(1);
+                        break;
+                    }
+                }
             }
-            if span == 1 {
+            if !progressed {
                 break;
             }
-            span /= 2;
         }
-        // pass 2: zero spans
-        let mut span = (best.len() / 4).max(1);
-        while span >= 1 && !over(execs) {
-            let mut i = 2usize;
-            while i < best.len() && !over(execs) {
-                let end = (i + span).min(best.len());
-                if best[i..end].iter().any(|x| *x != 0) {
-                    let mut cand = best.clone();
-                    for x in &mut cand[i..end] {
-                        *x = 0;
-                    }
-                    execs += 1;
-                    if let Some((t, nv)) = still_fails(scn, tier, &key, &cand) {
-                        if t.len() < best.len() || (t.len() == best.len() && t < best) {
-                            best = t;
-                            bestv = nv;
-                            improved = true;
-                        }
-                    }
-                }
-                i += span;
-            }
-            if span == 1 {
+        // pass 2: lower single values (0 first, then binary search); only a limited number per round
+        let vpaths = value_paths(&best);
+        for path in vpaths.iter().take(if round == 1 { 400 } else { 150 }) {
+            if over(execs) {
                 break;
             }
-            span /= 2;
-        }
-        // pass 3: lower single values (binary search towards 0)
-        let mut i = 2usize;
-        while i < best.len() && !over(execs) {
-            let orig = best[i];
-            if orig > 0 && orig < (1 << 32) {
-                let mut lo = 0u64;
-                let mut hi = orig;
-                while lo < hi && !over(execs) {
-                    let mid = lo + (hi - lo) / 2;
-                    let mut cand = best.clone();
-                    cand[i] = mid;
-                    execs += 1;
-                    if let Some((t, nv)) = still_fails(scn, tier, &key, &cand) {
-                        if t.len() <= best.len() {
-                            let same_len = t.len() == best.len();
-                            best = t;
-                            bestv = nv;
-                            hi = mid;
-                            if !same_len {
-                                improved = true;
-                                break;
-                            }
-                            if mid < orig {
-                                improved = true;
-                            }
-                            continue;
+            let mut orig = 0u64;
+            with_parent(&mut best.clone(), path, |p, i| {
+                if let TNode::V(v) = p[i] {
+                    orig = v;
+                }
+            });
+            // the tree may have changed since the paths were collected
+            let mut cur = None;
+            {
+                let mut probe = best.clone();
+                with_parent(&mut probe, path, |p, i| {
+                    if let TNode::V(v) = p[i] {
+                        cur = Some(v);
+                    }
+                });
+            }
+            let Some(curv) = cur else { continue };
+            if curv == 0 || curv >= (1 << 40) {
+                continue;
+            }
+            let _ = orig;
+            let mut lo = 0u64;
+            let mut hi = curv;
+            while lo < hi && !over(execs) {
+                let mid = lo + (hi - lo) / 2;
+                let mut cand = best.clone();
+                with_parent(&mut cand, path, |p, i| {
+                    p[i] = TNode::V(mid);
+                });
+                execs += 1;
+                match still_fails(scn, tier, &key, &cand) {
+                    Some((t, nv)) if size(&t) <= size(&best) => {
+                        let same_shape = size(&t) == size(&best);
+                        best = t;
+                        bestv = nv;
+                        improved = true;
+                        hi = mid;
+                        if !same_shape {
+                            break;
                         }
                     }
-                    lo = mid + 1;
+                    _ => lo = mid + 1,
                 }
             }
-            i += 1;
         }
     }
-    let to_len = best.len();
+    let to_len = count_values(&best);
     (best, bestv, ShrinkStats { executions: execs, from_len, to_len })
 }
 
@@ -420,7 +496,7 @@ pub struct KnownFinding {
     pub trigger: Option<String>,
     pub what: String,
     pub scenario: String,
-    pub tape: Vec<u64>,
+    pub tape: Vec<TNode>,
     pub tier: Tier,
     /// a literal input for scenarios that replay a fixed document instead of a tape (robust against generator changes)
     pub input: Option<String>,
@@ -446,11 +522,7 @@ pub fn load_known_findings(path: &str) -> Result<Vec<KnownFinding>, String> {
                 scenario: s("scenario"),
                 tier: if s("tier") == "thorough" { Tier::Thorough } else { Tier::Quick },
                 input: k.get("input").and_then(Value::as_str).map(str::to_string),
-                tape: k
-                    .get("tape")
-                    .and_then(Value::as_array)
-                    .map(|a| a.iter().filter_map(Value::as_u64).collect())
-                    .unwrap_or_default(),
+                tape: k.get("tape").map(from_json).unwrap_or_default(),
             });
         }
     }
@@ -498,7 +570,7 @@ struct Agg {
     probes: BTreeMap<String, u64>,
     hash_orders: BTreeSet<u64>,
     max_ticks_per_kib: u64,
-    violations: Vec<(usize, u64, Vec<u64>, Violation)>, // (scenario idx, run idx, tape, violation)
+    violations: Vec<(usize, u64, Vec<TNode>, Violation)>, // (scenario idx, run idx, tape, violation)
     violation_count: u64,
     suppressed: u64,
     digest_checksum: u64,
@@ -596,7 +668,7 @@ pub fn verif_root() -> String {
     std::env::var("VERIF_ROOT").unwrap_or_else(|_| "/verif".to_string())
 }
 
-pub fn write_replay(property: &str, scn: &dyn Scenario, verif_seed: u64, run: u64, tier: Tier, tape: &[u64], orig_len: usize, v: &Violation, rendered: &[String]) -> String {
+pub fn write_replay(property: &str, scn: &dyn Scenario, verif_seed: u64, run: u64, tier: Tier, tape: &[TNode], orig_len: usize, v: &Violation, rendered: &[String]) -> String {
     let dir = format!("{}/replays", verif_root());
     let _ = std::fs::create_dir_all(&dir);
     let path = format!("{dir}/{property}-{}-s{verif_seed}-r{run}.json", scn.name());
@@ -607,7 +679,8 @@ pub fn write_replay(property: &str, scn: &dyn Scenario, verif_seed: u64, run: u6
         "run": run,
         "tier": tier.name(),
         "violation": { "oracle": v.oracle, "class": v.class, "detail": v.detail, "triggers": v.triggers },
-        "tape": tape,
+        "tape": to_json(tape),
+        "tape_values": count_values(tape),
         "tape_len_original": orig_len,
         "rendered": rendered,
     });
@@ -758,12 +831,12 @@ pub fn run_check(spec: &CheckSpec, tier: Tier) -> i32 {
         }
         seen_keys.insert(key);
         let scn = spec.plans[*si].scenario.as_ref();
-        let (stape, sv, st) = shrink(scn, tier, tape.clone(), v.clone(), 1500, 20.0);
+        let (stape, sv, st) = shrink(scn, tier, tape.clone(), v.clone(), if reported == 0 { 6000 } else { 1500 }, if reported == 0 { 90.0 } else { 20.0 });
         // a shrunk tape that now matches a known finding is that finding, not a new one
         if known.iter().any(|k| matches_known(k, spec.property, &sv)) && !known.iter().any(|k| matches_known(k, spec.property, v)) {
             // keep the unshrunk violation instead
             let rr = exec_run(scn, Tape::from_replay(tape.clone()), tier, true);
-            let path = write_replay(spec.property, scn, verif_seed, *ri, tier, tape, tape.len(), v, &rr.log);
+            let path = write_replay(spec.property, scn, verif_seed, *ri, tier, tape, count_values(tape), v, &rr.log);
             println!("VIOLATION property={} replay={}", spec.property, path);
             replay_paths.push(path);
             reported += 1;
@@ -900,7 +973,7 @@ pub fn replay_file(path: &str, all: &[CheckSpec]) -> i32 {
     let property = v["property"].as_str().unwrap_or("");
     let scenario = v["scenario"].as_str().unwrap_or("");
     let tier = if v["tier"].as_str() == Some("thorough") { Tier::Thorough } else { Tier::Quick };
-    let tape: Vec<u64> = v["tape"].as_array().map(|a| a.iter().filter_map(Value::as_u64).collect()).unwrap_or_default();
+    let tape: Vec<TNode> = from_json(&v["tape"]);
     let want = format!("{}|{}", v["violation"]["oracle"].as_str().unwrap_or(""), v["violation"]["class"].as_str().unwrap_or(""));
     let Some(plan) = all.iter().filter(|c| c.property == property).flat_map(|c| c.plans.iter()).find(|p| p.scenario.name() == scenario) else {
         eprintln!("HARNESS ERROR: unknown property/scenario {property}/{scenario}");
